@@ -6,6 +6,8 @@ from __future__ import print_function, division
 # - Optional FITS input/output
 # - Output convolved fluxes
 
+from copy import deepcopy
+
 import numpy as np
 from astropy import units as u
 
@@ -103,7 +105,9 @@ class Fitter(object):
 
         self.model_dir = model_dir
         self.av_range = av_range
-        self.extinction_law = extinction_law
+        # (a copy: the law was evaluated above, and the caller may go on to use
+        # its object for another law)
+        self.extinction_law = deepcopy(extinction_law)
 
     def fit(self, source):
         """
